@@ -197,6 +197,14 @@ def patternOk (ds : Dataset) (i : Nat) (r : Row) : Bool :=
 def checkPatternBlock (ds : Dataset) (b : Nat) : Bool :=
   checkBlockItems (patternOk ds) ds.cx b
 
+/-- W6: a stable nuclide feeds nothing — every off-diagonal stored entry of row `i` of `C` sits
+in the column of a radioactive nuclide -/
+def stableColsOk (rate : Rates) (i : Nat) (r : Row) : Bool :=
+  r.all (fun e => e.col == i || get2 rate e.col 0 != 0)
+
+def checkStableBlock (C : Blocks) (rate : Rates) (b : Nat) : Bool :=
+  checkBlockRows (stableColsOk rate) C b
+
 /-! ### W9: double-precision side vs exact side -/
 
 def ratAbs (q : Rat) : Rat := if q < 0 then -q else q
